@@ -15,6 +15,7 @@ package socket
 
 import (
 	"context"
+	"errors"
 	"io"
 	"net"
 	"runtime"
@@ -176,6 +177,9 @@ func (c *conn) Send(ctx context.Context, onExit func()) {
 	}
 }
 
+// errRefusedConnection ends a connection on which the server has refused a request.
+var errRefusedConnection = errors.New("hprose/rpc/socket: the server ends the connection after refusing a request")
+
 func (c *conn) receive() (err error) {
 	var header [12]byte
 	if _, err = io.ReadAtLeast(c.Conn, header[:], 12); err != nil {
@@ -202,6 +206,12 @@ func (c *conn) receive() (err error) {
 			resultChan <- data{
 				Index: index,
 				Error: e,
+			}
+			if e == core.ErrRequestEntityTooLarge {
+				// the server ends the connection after this refusal (it has not read the
+				// request): the connection leaves the pool now, so that the next call
+				// does not go into it
+				return errRefusedConnection
 			}
 			return
 		}
